@@ -49,9 +49,20 @@ type Task struct {
 	prio        int
 	run         int // consecutive picks
 	instPicks   int // picks with progress since the task last blocked (spin detection)
+	stmts       int // statements executed since the task was last given the token
 	LastSite    int
 	blockedAt   int
 	exited      bool
+}
+
+// RunawayStatements: a task that executes this many statements in one go (no
+// synchronisation point, sleep or I/O in between) is taken for a loop that never ends.
+const RunawayStatements = 2_000_000
+
+type Runaway struct {
+	Task string
+	Inc  int
+	Site string
 }
 
 type Event struct {
@@ -174,6 +185,7 @@ type Sim struct {
 	rngSalted   bool
 	ioLast      *Task
 	Exhausted   bool
+	Runaways    []Runaway
 	logH        uint64
 	LogLines    []string
 	KeepLog     bool
@@ -493,6 +505,23 @@ func P(site int) {
 	}
 	s.Steps++
 	t.LastSite = site
+	t.stmts++
+	if t.stmts > RunawayStatements && t.Inc != 0 {
+		// The task has executed millions of statements without reaching a single
+		// synchronisation point, sleep or I/O: a loop that does not end. It is parked
+		// for good (whatever it holds stays held, as with a spinning thread) and the
+		// run goes on, so that the oracles see what the rest of the agent does.
+		t.req = func() {
+			s.Runaways = append(s.Runaways, Runaway{Task: t.Name, Inc: t.Inc, Site: SiteName(site)})
+			s.Logf("RUNAWAY task=%s site=%s", t.Name, SiteName(site))
+			t.state = stDead
+			s.MarkDirty()
+		}
+		t.state = stRunnable
+		t.progress = true
+		t.yield()
+		return
+	}
 	if s.Steps == s.KillStep && t.Inc == s.KillInc && t.Inc != 0 {
 		t.req = func() { s.killInc(t.Inc) }
 		t.state = stRunnable
@@ -629,6 +658,7 @@ func (s *Sim) IncDead(inc int) bool { return s.dead[inc] }
 
 // runTask gives the token to t until it yields, then serves its pending call.
 func (s *Sim) runTask(t *Task) {
+	t.stmts = 0
 	for {
 		s.cur = t
 		raceDisable()
